@@ -17,6 +17,7 @@ import (
 	"strings"
 	"time"
 
+	"go.opentelemetry.io/otel/trace"
 	"rivaas.dev/logging"
 	"verif/harness/hx"
 )
@@ -51,9 +52,12 @@ type rcaseT struct {
 	Buffered bool `json:",omitempty"`
 	// FailFirst (with Buffered): the whole thing happens twice, the first time with the output down
 	FailFirst bool `json:",omitempty"`
-	Source    bool `json:",omitempty"` // logging.WithSource(true): the handlers add the call site
-	Entry     int  // 0 slog.Logger.Info, 1 LogAttrs, 2 Logger.Warn (no chain), 3 BatchLogger (no chain), 4 first op via Logger.With/WithGroup
-	Level     int  // 0 info 1 warn 2 error
+	// Trace: the call carries a context with a valid span: the contextHandler adds trace_id / span_id to the record (they
+	// are part of the expected call attributes on the case line: last, inside the groups open at the call)
+	Trace  bool `json:",omitempty"`
+	Source bool `json:",omitempty"` // logging.WithSource(true): the handlers add the call site
+	Entry  int  // 0 slog.Logger.Info, 1 LogAttrs, 2 Logger.Warn (no chain), 3 BatchLogger (no chain), 4 first op via Logger.With/WithGroup
+	Level  int  // 0 info 1 warn 2 error
 }
 
 func (a attrT) text() string {
@@ -197,6 +201,12 @@ func runRedact2(c rcaseT) (out, side []byte, panicked bool) {
 		l.StartBuffering()
 	}
 	level := []slog.Level{slog.LevelInfo, slog.LevelWarn, slog.LevelError}[c.Level%3]
+	ctx := context.Background()
+	if c.Trace {
+		ctx = trace.ContextWithSpanContext(ctx, trace.NewSpanContext(trace.SpanContextConfig{
+			TraceID: trace.TraceID{0x4b, 0xf9, 0x2f, 0x35, 0x77, 0xb3, 0x4d, 0xa6, 0xa3, 0xce, 0x92, 0x9d, 0x0e, 0x0e, 0x47, 0x36},
+			SpanID:  trace.SpanID{0x00, 0xf0, 0x67, 0xaa, 0x0b, 0xa9, 0x02, 0xb7}, TraceFlags: trace.FlagsSampled}))
+	}
 	emitOnce := func() {
 		sl := l.Logger()
 		for i, op := range c.Chain {
@@ -213,7 +223,7 @@ func runRedact2(c rcaseT) (out, side []byte, panicked bool) {
 		}
 		switch c.Entry {
 		case 1:
-			sl.LogAttrs(context.Background(), level, "msg", attrs(c.Call)...)
+			sl.LogAttrs(ctx, level, "msg", attrs(c.Call)...)
 		case 2:
 			switch c.Level % 3 {
 			case 0:
@@ -235,7 +245,7 @@ func runRedact2(c rcaseT) (out, side []byte, panicked bool) {
 			}
 			bl.Close()
 		default:
-			sl.Log(context.Background(), level, "msg", args(c.Call)...)
+			sl.Log(ctx, level, "msg", args(c.Call)...)
 		}
 	}
 	if c.Buffered && c.FailFirst {
@@ -538,7 +548,13 @@ func emitRedact(id string, c rcaseT, st *hx.Stats) string {
 			encAttrs(l, op.W)
 		}
 	}
-	encAttrs(l, c.Call)
+	call := c.Call
+	if c.Trace {
+		call = append(append([]attrT(nil), c.Call...),
+			attrT{K: "trace_id", S: "4bf92f3577b34da6a3ce929d0e0e4736", Core: "4bf92f3577b34da6a3ce929d0e0e4736"},
+			attrT{K: "span_id", S: "00f067aa0ba902b7", Core: "00f067aa0ba902b7"})
+	}
+	encAttrs(l, call)
 	// input attributes in the order root, chain, call (pre-order inside a tree)
 	var all []attrT
 	sensNested, sens := false, false
@@ -565,7 +581,7 @@ func emitRedact(id string, c rcaseT, st *hx.Stats) string {
 			inGroup = true
 		}
 	}
-	collect(c.Call, inGroup || c.Buffered || c.Entry != 0)
+	collect(call, inGroup || c.Buffered || c.Entry != 0)
 	l.Nat(len(all))
 	for _, a := range all {
 		l.Str(a.Core)
@@ -620,6 +636,9 @@ func emitRedact(id string, c rcaseT, st *hx.Stats) string {
 		}
 		if c.FailFirst {
 			st.Count("redact_output_down_first")
+		}
+		if c.Trace {
+			st.Count("redact_with_span_context")
 		}
 		if c.User != "" {
 			st.Count("redact_user_replacer")
@@ -833,6 +852,8 @@ func genRedact(r *hx.Rand, allowLV bool) rcaseT {
 	} else {
 		c.Entry = hx.Pick(r, []int{0, 1, 4})
 	}
+	// a request context with a span (only the entry points that take a context)
+	c.Trace = c.Entry != 2 && c.Entry != 3 && r.Chance(1, 5)
 	return c
 }
 
